@@ -330,6 +330,11 @@ class Explorer:
                     new.comparators = [unstr(r_)]
             if isinstance(new, ast.Call):
                 new = self._simplify_call(new)
+                if isinstance(new, (ast.GeneratorExp, ast.DictComp, ast.ListComp)) and getattr(new, "_rb_done", 0) < 2:
+                    # a functional idiom that now reads as a comprehension: expand it over literals like any other
+                    new._rb_done = getattr(new, "_rb_done", 0) + 1  # type: ignore[attr-defined]
+                    exp = self._expand_comprehension(new, st, shadow, rb)
+                    return exp if exp is not None else new
                 if not isinstance(new, ast.Call):
                     return new
                 if (dotted(new.func) or "").split(".")[-1] == "compress" and len(new.args) == 2 and not new.keywords and all(isinstance(a_, (ast.Tuple, ast.List)) and not any(isinstance(x, ast.Starred) for x in a_.elts) for a_ in new.args):
@@ -508,7 +513,13 @@ class Explorer:
         return ast.Tuple(elts=vals, ctx=ast.Load())
 
     def _simplify_call(self, n: ast.Call) -> ast.AST:
-        """getattr(x, "name") -> x.name;  list(<literal>) / tuple(<literal>) -> literal;  (lambda p: e)(a) -> e[p:=a]"""
+        """getattr(x, "name") -> x.name;  list(<literal>) / tuple(<literal>) -> literal;  (lambda p: e)(a) -> e[p:=a];
+        functional idioms read as the expression they stand for: operator.add(a, b) -> a + b, itemgetter(i)(x) -> x[i],
+        attrgetter("a")(x) -> x.a, methodcaller("m")(x) -> x.m(), partial(f, a)(b) -> f(a, b), map / starmap / filter ->
+        generator expressions, reduce over a literal -> the folded expression, dict(zip(<literals>)) -> dict literal"""
+        n = self._functional(n)
+        if not isinstance(n, ast.Call):
+            return n
         if isinstance(n.func, ast.Lambda) and not any(isinstance(x, ast.Starred) for x in n.args) and not any(k.arg is None for k in n.keywords):
             # a callback that was bound to a parameter and is called: beta reduction (arguments that contain calls
             # are only substituted when the parameter is read once)
@@ -567,6 +578,95 @@ class Explorer:
             items = self.literal_items(n.args[0], self._stack[-1])  # a module-level literal tuple
             if items is not None and all(isinstance(x, ast.Constant) for x in items):
                 return ast.List(elts=list(items), ctx=ast.Load()) if n.func.id == "list" else ast.Tuple(elts=list(items), ctx=ast.Load())
+        return n
+
+    _BINOPS = {
+        "add": ast.Add, "sub": ast.Sub, "mul": ast.Mult, "truediv": ast.Div, "floordiv": ast.FloorDiv, "mod": ast.Mod, "pow": ast.Pow,
+        "or_": ast.BitOr, "and_": ast.BitAnd, "xor": ast.BitXor, "lshift": ast.LShift, "rshift": ast.RShift, "matmul": ast.MatMult,
+    }  # fmt: skip
+    _CMPOPS = {"eq": ast.Eq, "ne": ast.NotEq, "lt": ast.Lt, "le": ast.LtE, "gt": ast.Gt, "ge": ast.GtE, "is_": ast.Is, "is_not": ast.IsNot, "contains": None}
+
+    def _functional(self, n: ast.Call, _depth: int = 0) -> ast.AST:
+        if _depth > 4:
+            return n
+        fn = (dotted(n.func) or "").split(".")
+        last = fn[-1] if fn else ""
+        qual_ok = len(fn) == 1 or fn[0] in ("operator", "functools", "itertools", "op")
+        plain = not n.keywords and not any(isinstance(x, ast.Starred) for x in n.args)
+        # f(*(<literal tuple>)) -> f(a, b, …)
+        if any(isinstance(x, ast.Starred) and isinstance(x.value, (ast.Tuple, ast.List)) and not any(isinstance(y, ast.Starred) for y in x.value.elts) for x in n.args):
+            args = []
+            for x in n.args:
+                if isinstance(x, ast.Starred) and isinstance(x.value, (ast.Tuple, ast.List)) and not any(isinstance(y, ast.Starred) for y in x.value.elts):
+                    args.extend(x.value.elts)
+                else:
+                    args.append(x)
+            n = copy.copy(n)
+            n.args = args
+            return self._functional(n, _depth + 1)
+        if qual_ok and plain and last in self._BINOPS and len(n.args) == 2 and (len(fn) == 2 or last.endswith("_")):
+            return ast.BinOp(left=n.args[0], op=self._BINOPS[last](), right=n.args[1])
+        if len(fn) == 2 and fn[0] in ("operator", "op") and plain and last in self._CMPOPS and len(n.args) == 2:
+            if last == "contains":
+                return ast.Compare(left=n.args[1], ops=[ast.In()], comparators=[n.args[0]])
+            return ast.Compare(left=n.args[0], ops=[self._CMPOPS[last]()], comparators=[n.args[1]])
+        if len(fn) == 2 and fn[0] in ("operator", "op") and plain and last == "getitem" and len(n.args) == 2:
+            return ast.Subscript(value=n.args[0], slice=n.args[1], ctx=ast.Load())
+        if len(fn) == 2 and fn[0] in ("operator", "op") and plain and last in ("not_", "truth", "neg") and len(n.args) == 1:
+            return ast.UnaryOp(op=ast.Not() if last == "not_" else ast.USub(), operand=n.args[0]) if last != "truth" else ast.Call(func=ast.Name(id="bool", ctx=ast.Load()), args=n.args, keywords=[])
+        # calls of the getter / caller objects
+        if isinstance(n.func, ast.Call) and plain and len(n.args) == 1:
+            inner = n.func
+            ifn = (dotted(inner.func) or "").split(".")[-1]
+            if ifn == "itemgetter" and len(inner.args) == 1 and not inner.keywords:
+                return self._simplify(ast.Subscript(value=n.args[0], slice=inner.args[0], ctx=ast.Load()))
+            if ifn == "itemgetter" and len(inner.args) > 1 and not inner.keywords:
+                return ast.Tuple(elts=[self._simplify(ast.Subscript(value=n.args[0], slice=a_, ctx=ast.Load())) for a_ in inner.args], ctx=ast.Load())
+            if ifn == "attrgetter" and len(inner.args) == 1 and isinstance(inner.args[0], ast.Constant) and isinstance(inner.args[0].value, str) and not inner.keywords:
+                e = n.args[0]
+                for part in inner.args[0].value.split("."):
+                    e = ast.Attribute(value=e, attr=part, ctx=ast.Load())
+                return e
+            if ifn == "methodcaller" and inner.args and isinstance(inner.args[0], ast.Constant) and isinstance(inner.args[0].value, str):
+                return ast.Call(func=ast.Attribute(value=n.args[0], attr=inner.args[0].value, ctx=ast.Load()), args=list(inner.args[1:]), keywords=list(inner.keywords))
+        if isinstance(n.func, ast.Call) and (dotted(n.func.func) or "").split(".")[-1] == "partial" and n.func.args and not any(isinstance(x, ast.Starred) for x in n.func.args) and not any(k.arg is None for k in n.func.keywords):
+            inner = n.func
+            given = {k.arg for k in n.keywords if k.arg}
+            new = ast.Call(func=inner.args[0], args=list(inner.args[1:]) + list(n.args), keywords=list(n.keywords) + [k for k in inner.keywords if k.arg not in given])
+            return self._simplify_call(new)
+        # map / starmap / filter -> generator expressions (the element variable is a fresh name)
+        if last in ("map", "starmap", "filter") and qual_ok and not n.keywords and len(n.args) == 2 and not any(isinstance(x, ast.Starred) for x in n.args):
+            self._tmp += 1
+            v = f"_m{self._tmp}"
+            f, it = n.args
+            var = ast.Name(id=v, ctx=ast.Load())
+            if last == "map":
+                elt = self._simplify_call(ast.Call(func=f, args=[var], keywords=[]))
+                return ast.GeneratorExp(elt=elt, generators=[ast.comprehension(target=ast.Name(id=v, ctx=ast.Store()), iter=it, ifs=[], is_async=0)])
+            if last == "starmap":
+                elt = ast.Call(func=f, args=[ast.Starred(value=var, ctx=ast.Load())], keywords=[])
+                return ast.GeneratorExp(elt=elt, generators=[ast.comprehension(target=ast.Name(id=v, ctx=ast.Store()), iter=it, ifs=[], is_async=0)])
+            cond = var if (isinstance(f, ast.Constant) and f.value is None) else self._simplify_call(ast.Call(func=f, args=[var], keywords=[]))
+            return ast.GeneratorExp(elt=var, generators=[ast.comprehension(target=ast.Name(id=v, ctx=ast.Store()), iter=it, ifs=[cond], is_async=0)])
+        if last == "map" and qual_ok and not n.keywords and len(n.args) > 2 and not any(isinstance(x, ast.Starred) for x in n.args):
+            z = ast.Call(func=ast.Name(id="zip", ctx=ast.Load()), args=list(n.args[1:]), keywords=[])
+            return self._functional(ast.Call(func=ast.Name(id="starmap", ctx=ast.Load()), args=[n.args[0], z], keywords=[]), _depth + 1)
+        # reduce over a literal sequence
+        if last == "reduce" and qual_ok and not n.keywords and len(n.args) in (2, 3) and self._stack:
+            items = self.literal_items(n.args[1], self._stack[-1])
+            if items is not None and len(items) <= 8 and (len(n.args) == 3 or items):
+                acc = n.args[2] if len(n.args) == 3 else items[0]
+                for x in items if len(n.args) == 3 else items[1:]:
+                    acc = self._simplify_call(ast.Call(func=n.args[0], args=[acc, x], keywords=[]))
+                return acc
+        # dict(zip(<literal keys>, <literal values>)) / dict(<pairs>)
+        if last == "dict" and len(fn) == 1 and len(n.args) == 1 and not n.keywords and self._stack:
+            a0 = n.args[0]
+            items = self.literal_items(a0, self._stack[-1]) if not _const_dict(a0) else None
+            if items is not None and len(items) <= 16 and all(isinstance(x, (ast.Tuple, ast.List)) and len(x.elts) == 2 and isinstance(x.elts[0], ast.Constant) for x in items):
+                return ast.Dict(keys=[x.elts[0] for x in items], values=[x.elts[1] for x in items])
+            if isinstance(a0, ast.GeneratorExp) and isinstance(a0.elt, (ast.Tuple, ast.List)) and len(a0.elt.elts) == 2:
+                return ast.DictComp(key=a0.elt.elts[0], value=a0.elt.elts[1], generators=a0.generators)
         return n
 
     @staticmethod
